@@ -72,6 +72,26 @@ Proof. intros v t E N. destruct v; cbn in E; subst; cbn in N; try discriminate; 
 Lemma not_kd_event : forall cb, is_kd_cb cb = false -> is_kd (EvCall cb) = false.
 Proof. destruct cb; cbn; congruence. Qed.
 
+Lemma eval_ext : forall E1 E2,
+  e_n E1 = e_n E2 -> e_dim E1 = e_dim E2 -> (forall k, e_get E1 k = e_get E2 k) ->
+  forall b, eval_bexpr E1 b = eval_bexpr E2 b.
+Proof.
+  intros E1 E2 Hn Hd Hg. induction b; cbn [eval_bexpr];
+    rewrite ?IHb, ?IHb1, ?IHb2, ?Hn, ?Hd, ?Hg; reflexivity.
+Qed.
+
+Lemma pred_holds_ext : forall E1 E2,
+  e_n E1 = e_n E2 -> e_dim E1 = e_dim E2 -> (forall k, e_get E1 k = e_get E2 k) ->
+  forall ty p x, pred_holds E1 ty p x = pred_holds E2 ty p x.
+Proof.
+  intros E1 E2 Hn Hd Hg ty p x. unfold pred_holds, lo_holds, hi_holds.
+  destruct p as [[[s1 b1]|] [[s2 b2]|]]; cbn [p_lo p_hi];
+    rewrite ?(eval_ext E1 E2 Hn Hd Hg); reflexivity.
+Qed.
+
+Lemma guard_on_ext : forall f1 f2 g, (forall k, f1 k = f2 k) -> guard_on f1 g = guard_on f2 g.
+Proof. intros f1 f2 g H. destruct g; cbn [guard_on]; now rewrite H. Qed.
+
 Section Steps.
   Variable T : tables.
   Variable r : request.
@@ -90,7 +110,7 @@ Section Steps.
   Proof. unfold translate. rewrite Hrt. reflexivity. Qed.
 
   Lemma guard_bridge : forall g, guard_holds pm g = spec_guard r g.
-  Proof. intros g. unfold guard_holds, spec_guard. now rewrite Hag. Qed.
+  Proof. intros g. unfold guard_holds, spec_guard. apply guard_on_ext. exact Hag. Qed.
 
   Lemma guards_bridge : forall gs, forallb (guard_holds pm) gs = forallb (spec_guard r) gs.
   Proof. induction gs as [|g gs IH]; cbn [forallb]; auto. now rewrite guard_bridge, IH. Qed.
@@ -103,7 +123,7 @@ Section Steps.
   Qed.
 
   Lemma check_ok : forall c, conv_safe (c_kw c) (c_ty c) = true -> numeric (c_ty c) = true ->
-    do_check pm (rq_n r) c = if out_of_range r c then Some SwWrongValue else None.
+    do_check pm (mk_env r pm) c = if out_of_range r c then Some SwWrongValue else None.
   Proof.
     intros c H N. unfold conv_safe in H.
     destruct (pm_lookup (c_kw c) doc_defaults) as [dv|] eqn:D; [|discriminate].
@@ -111,7 +131,8 @@ Section Steps.
     unfold do_check, out_of_range. rewrite <- Hag, L, E, H.
     apply vtype_eqb_eq in H.
     destruct (numeric_value v (c_ty c)) as [x X]; [congruence | auto |].
-    rewrite X. destruct (pred_holds (rq_n r) (c_ty c) (c_pred c) x); reflexivity.
+    rewrite X. rewrite (pred_holds_ext (mk_env r pm) (spec_env r)); auto.
+    destruct (pred_holds (spec_env r) (c_ty c) (c_pred c) x); reflexivity.
   Qed.
 
   Lemma violated_uses : forall gs cb,
